@@ -1,4 +1,4 @@
-(* Correspondence for Model H (Hs/Builder.v): real ServerBuilders driven by sequences of calls, their
+(* Correspondence for Model J (Hs/Builder.v): real ServerBuilders driven by sequences of calls, their
    configurations read back after every call, the Authenticate function that Build installed probed with every
    kind of authentication object, and Servers built that way serving scripted peers (shared by C03 and C10). *)
 From Coq Require Import List Bool Arith String.
